@@ -187,10 +187,31 @@ def cache_tables(path, rel, tree, src):
                     for n in own)
         returns = any(isinstance(n, ast.Return) and n.value is not None for n in own)
         seen_c = set()
+        def partial_only(e):
+            """input names that occur in the (resolved) key only through a projection (x[i], len(x), x.attr, x.shape…):
+            such a key records part of x, not x"""
+            whole = set(); part = set(); seen = set(); todo = [e]
+            while todo:
+                x = todo.pop()
+                parents = {}
+                for n in ast.walk(x):
+                    for ch in ast.iter_child_nodes(n): parents[id(ch)] = n
+                for n in ast.walk(x):
+                    if isinstance(n, ast.Name):
+                        par = parents.get(id(n))
+                        proj = (isinstance(par, ast.Subscript) and par.value is n) or isinstance(par, ast.Attribute) or \
+                               (isinstance(par, ast.Call) and T.callee_name(par.func) in ('len', 'numpy.shape', 'np.shape', 'numpy.size', 'id') and n in par.args)
+                        if n.id in defs and n.id not in fn_params:
+                            if n.id not in seen:
+                                seen.add(n.id)
+                                for (v, tests) in defs[n.id]: todo.append(v)
+                        else:
+                            (part if proj else whole).add(n.id)
+            return part - whole
         for cname, keyexpr, valexpr in stores:
             if cname in seen_c: continue
             seen_c.add(cname)
-            keyp = inputs_of(keyexpr)
+            keyp = inputs_of(keyexpr) - partial_only(keyexpr)
             # the tests guarding the store are lookups of the key itself: they add no inputs beyond the key
             used = inputs_of(valexpr)
             caches.append(dict(module=rel, cache=cname, fn=fn.name, key=sorted(keyp), used=sorted(used),
